@@ -257,14 +257,20 @@ def run_case(case, ctx):
     key = json.dumps(v, sort_keys=True) if v else None
     return {"model": model, "impl": impl, "oracle": oracle, "tags": tags, "key": key}
 
-TECHNIQUE = "Lean 4 theorems (order-independence of the canonical form by induction; digest shape) + differential correspondence of the compiled Lean calc_id (own MD5, own JSON encoder) against signac.job.calc_id / open_job / init on generated values"
+TECHNIQUE = "Lean 4 theorems (order-independence of the canonical form by induction; injectivity of the JSON encoder as a prefix code; digest shape) + differential correspondence of the compiled Lean calc_id (own MD5, own JSON encoder) against signac.job.calc_id / open_job / init on generated values"
 LEVEL_TEXT = ("Proved in Lean for all values, all nesting depths and all key permutations: the id is a function of the "
               "canonical form only (calcId_equiv, calcId_perm), the hashed text has sorted keys at every depth, hashing "
               "is idempotent under re-canonicalisation, and every id is 32 lower-case hex characters matching the "
-              "extracted workspace pattern. The Lean model (its own JSON encoder and MD5) is compared with the real "
+              "extracted workspace pattern; conversely the hashed text determines the value (encChars_injective, "
+              "canonChars_injective: the JSON encoder is a prefix code), so state points that differ as JSON values are "
+              "hashed from different byte strings and equal ids mean equal canonical values or an explicit MD5 collision "
+              "(equal_ids_collision_or_equal; 1 vs 1.0 vs true vs '1', list order, extra key: int_float_bool_str_distinct, "
+              "list_order_distinct, extra_key_distinct). The Lean model (its own JSON encoder and MD5) is compared with the real "
               "calc_id on every generated value and spelling, so a change to encoder options, key sorting, escaping or "
               "hashing shows up as a disagreement with a concrete value.")
 LEVEL_NOTE = ("Trusted: Lean kernel; axioms propext/Classical.choice/Quot.sound; harness (generator, wire format, "
-              "oracle = hashlib.md5 of json.dumps(sort_keys=True)). Not proved: injectivity of the canonical text and MD5 "
-              "collision-freeness ('different values get different ids' is checked pairwise on generated near-miss "
-              "values only); CPython float repr is an opaque token.")
+              "oracle = hashlib.md5 of json.dumps(sort_keys=True)). Not proved: MD5 collision-freeness. The injectivity theorems need every float repr to be a float "
+              "token that determines its value (FloatsOk); the driver evaluates the executable form of that hypothesis on "
+              "every value of the run (ftok lines, floatsOk_iff). Strings with lone surrogates are outside the model (Lean "
+              "Char) - there CPython's json.dumps itself is not injective. 'Different values get different ids' is also "
+              "checked pairwise on generated near-miss values.")
